@@ -1,0 +1,7 @@
+//go:build !verif
+
+package util
+
+import gotime "time"
+
+func verifTickInterval(interval gotime.Duration) gotime.Duration { return interval }
